@@ -198,8 +198,7 @@ META = {
         'probes': ['valid_right_after_invalid', 'repeated_point',
                    'mixed_space_prior', 'obs_param_fitted', 'exact_fit_run',
                    'refit_session', 'observation_replaced', 'model_replaced',
-                   'factor_boundary_between_fits', 'cube_face_exactly',
-                   'invalid_by_definition_only'],
+                   'factor_boundary_between_fits', 'cube_face_exactly'],
         'real': ['NestleOptimizer/MultiNestOptimizer/PolyChordOptimizer '
                  'compute_fit closures', 'Optimizer.compile_params / '
                  'update_model / chisq_trans', 'taurex.core.priors',
